@@ -304,6 +304,15 @@ func (f vFixedIntrospector) IntrospectRemoteSchemas(urls ...string) ([]*ast.Sche
 	return f.res, nil
 }
 
+func (f *vFed) svcByURL(url string) *vSvc {
+	for _, s := range f.svcs {
+		if s.url == url {
+			return s
+		}
+	}
+	return nil
+}
+
 func vMustSchema(sdl string) *ast.Schema {
 	sc, err := gqlparser.LoadSchema(&ast.Source{Name: "svc", Input: sdl})
 	if err != nil {
@@ -313,6 +322,15 @@ func vMustSchema(sdl string) *ast.Schema {
 }
 
 func vNewFed(w *vWorld, opts []GatewayOption, sdls ...string) *vFed {
+	return vNewFedWith(w, opts, true, sdls...)
+}
+
+// vNewFedOpts builds the federation but leaves the queryer factory to the caller's options
+func vNewFedOpts(w *vWorld, opts []GatewayOption, sdls ...string) *vFed {
+	return vNewFedWith(w, opts, false, sdls...)
+}
+
+func vNewFedWith(w *vWorld, opts []GatewayOption, direct bool, sdls ...string) *vFed {
 	f := &vFed{w: w}
 	var urls []string
 	var schemas []*ast.Schema
@@ -326,8 +344,9 @@ func vNewFed(w *vWorld, opts []GatewayOption, sdls ...string) *vFed {
 		urls = append(urls, s.url)
 		schemas = append(schemas, sc)
 	}
-	opts = append(opts, WithRemoteSchemaIntrospector(vFixedIntrospector{schemas}),
-		WithQueryerFactory(func(_ *planner.PlanningContext, url string) queryer.Queryer {
+	opts = append(opts, WithRemoteSchemaIntrospector(vFixedIntrospector{schemas}))
+	if direct {
+		opts = append(opts, WithQueryerFactory(func(_ *planner.PlanningContext, url string) queryer.Queryer {
 			for _, s := range f.svcs {
 				if s.url == url {
 					return s
@@ -336,6 +355,7 @@ func vNewFed(w *vWorld, opts []GatewayOption, sdls ...string) *vFed {
 			// no such service: what the default factory would build is an HTTP client for a URL nobody serves
 			return &vSvc{url: url, schema: schemas[0], w: w, f: f, dead: true}
 		}))
+	}
 	gw, err := NewGateway(urls, opts...)
 	if err != nil {
 		panic("harness: scenario schemas do not merge: " + err.Error())
